@@ -38,6 +38,13 @@ def run(tier):
         raise vlib.InfraError("c13-cases failed: " + err[-1500:])
     lines = c09.judge(ck, "C13", tr, "histories")
     ck._distinct.update(("h%d" % i).encode() for i in range(len(lines)))
+    # every geometry kind the sample files hold: single setters and the composite fill on up to three shapes per file
+    tr = os.path.join(wd, "samples.trace.ndjson")
+    rc, out, err = vlib.run_harness(exe, ["c13-samples", tr], timeout=7000)
+    if rc != 0:
+        raise vlib.InfraError("c13-samples failed: " + err[-1500:])
+    lines = c09.judge(ck, "C13", tr, "samples")
+    ck._distinct.update(("s%d" % i).encode() for i in range(len(lines)))
     with open(cases) as f:
         for i, line in enumerate(f):
             if i == r.exported // 2:
